@@ -1,7 +1,7 @@
 import LunaVerif.Model.Usb2.IsoStreamOut
 import LunaVerif.Props.C18
 /-!
-# C16 — Isochronous OUT endpoints deliver only whole, CRC-valid packets   (PARTIAL)
+# C16 — Isochronous OUT endpoints deliver only whole, CRC-valid packets   (glue over the queue; end to end: `Props/C16Stream.lean`)
 
 "The output stream consists of complete payloads of CRC-valid packets addressed to the endpoint, each
 marked first on its first byte and last on its final byte, in order; when buffer space runs out a
@@ -23,8 +23,9 @@ Proved here, on the endpoint glue over the commit/rollback queue that C18 shows 
   (`Queue.step`: commit appends W to the readable part, discard erases it), so by `queue_conserves` the
   consumer is handed whole packets only, in order.
 
-Full statement (not proved as one theorem; the link detector-events → glue cycles and cycle-level
-FIFO → queue is by C28 / C18 + co-simulation):
+Full statement — proved end to end over raw cycle-level receive histories in `Props/C16Stream.lean`
+(`iso_out_whole_packets_only`, with `Lemmas/C16Host.lean` for the detector by phase and C18's `Rel`/`rel_step`
+for the FIFO):
   `iso_out_whole_packets_only` : consumer transfers = concatenation, in order, of `marked` payloads of the
   CRC-valid packets addressed to the endpoint whose first byte found `max_packet_size` free entries.
 -/
